@@ -196,8 +196,8 @@ fn gen_group(g: &mut Gen, depth: usize) -> (String, String) {
   let mut texts = vec![];
   let mut sigs = vec![];
   for _ in 0..nchoices {
+    // (an empty group choice is derivable in any position: grpchoice = *(grpent optcom))
     let n = [1, 1, 2, 3, 0][g.next(5)];
-    let n = if nchoices > 1 && n == 0 { 1 } else { n };
     let es: Vec<(String, String)> = (0..n).map(|_| gen_entry(g, depth, false)).collect();
     texts.push(es.iter().map(|e| e.0.clone()).collect::<Vec<_>>().join(", "));
     sigs.push(format!("(gc{})", es.iter().map(|e| format!(" {}", e.1)).collect::<String>()));
